@@ -334,7 +334,7 @@ def _opts(draw):
     o['reconf'] = draw(st.sampled_from([None, None, None, ['original'], ['canonical'], ['canonical', 'original'], ['original', 'canonical']]))
     o['rearr'] = draw(st.sampled_from([None, None, None, ['canonical'], ['alphanumeric'], ['attributes-first'], ['inverted-last', 'alphanumeric'],
                                        ['attributes-first', 'canonical'], ['inverted-last'], ['alphanumeric', 'inverted-last', 'attributes-first']]))
-    o['mv'] = draw(st.sampled_from([None, None, None, '{prefix}{j}', 'a{i}', '{prefix}{i}']))
+    o['mv'] = draw(st.sampled_from([None, None, None, '{prefix}{j}', 'a{i}', '{prefix}{i}', '{prefix}{i:02}', 'n{i:d}', '{prefix}{i!s}']))
     o['indent'] = draw(st.sampled_from([None, None, 'no', '-1', '0', '1', '3', '8', 'none', 'False']))
     o['v'] = draw(st.sampled_from([None, None, None, None, '-v', '-vv', '-vvv', '--verbose']))
     return o
@@ -394,13 +394,15 @@ def _cases(draw):
 
 
 def _long_chunks(tier):
-    return [{'n': n, 'o': o} for n in (65, 130, 300) for o in range(3)]
+    return [{'n': n, 'o': o} for n in (65, 130, 300) for o in range(3)] + [{'n': 8200, 'o': 0}, {'n': 8200, 'o': 3}]
 
 
 def _long_cases(ch):
     g = [{'tree': ['a', [['/', 'alpha'], [':mod', 'x'], [':ARG0', ['b', [['/', 'beta']]]], [':polarity', '-']]], 'meta': {'id': 'x'}},
          {'tree': ['c', [['/', 'chase-01'], [':ARG1', ['m', [['/', 'mouse']]]], [':ARG0', ['c2', [['/', 'cat']]]]]], 'meta': {}}]
-    opts = [{}, {'rearr': ['attributes-first', 'canonical'], 'mv': '{prefix}{j}'}, {'re': True, 'ra': True, 'canon': True, 'indent': 'no'}][ch['o']]
+    opts = [{}, {'rearr': ['attributes-first', 'canonical'], 'mv': '{prefix}{j}'}, {'re': True, 'ra': True, 'canon': True, 'indent': 'no'}, {'indent': 'no'}][ch['o']]
+    if ch['n'] > 1000:
+        g = [{'tree': ['a', [['/', 'b']]], 'meta': {}}, {'tree': ['c', []], 'meta': {}}]
     yield {'sources': [[g[i % 2] for i in range(ch['n'])]], 'model': {'name': 'amr'}, 'opts': opts, 'stdin': ch['o'] == 0,
            'in_indent': -1, 'alt_indent': 'no', 'subprocess': False}
 
